@@ -87,11 +87,16 @@ function elementKinds() {
     for (const [fn, fv] of forms) {
       out.push([`event-x:${prefix}:${fn}`, () => v([A.event(prefix, 'tap', fv)])])
     }
+    if (true) for (const [fn, fv] of forms) if (fn !== 'mixed') out.push([`event-x:${prefix}:${fn}@slot`, () => slot('n', [['v', X]], { attrs: [A.event(prefix, 'tap', fv)] })])
     out.push([`event-x:${prefix}:two-events`, () => v([A.event(prefix, 'tap', X), A.event(prefix, 'b-c', 'g')])])
   }
   // the other families x the value forms that the plain cases above leave out
   const fam = [['data-', (val) => A.dataHyphen('k', val)], ['data:', (val) => A.dataColon('k', val)], ['mark', (val) => A.mark('m', val)], ['model', (val) => A.model('v', val)], ['change', (val) => A.change('p', val)], ['id', (val) => A.id(val)], ['slot-attr', (val) => A.slot(val)], ['class', (val) => A.cls(val)], ['style', (val) => A.style(val)]]
   for (const [fname, f] of fam) for (const [fn, fv] of [['mixed', ['a', X, 'b']], ['two-bindings', [X, Y]], ['member-binding', E(M.mem(id('a'), 'b'))]]) out.push([`${fname}-x:${fn}`, () => v([f(fv)])])
+  // a <slot> element with each family it accepts
+  for (const [fname, f] of [['id', (val) => A.id(val)], ['data-', (val) => A.dataHyphen('k-l', val)], ['data:', (val) => A.dataColon('kL', val)], ['mark', (val) => A.mark('m', val)]]) {
+    for (const [fn, fv] of [['static', 's'], ['binding', X], ['mixed', ['a', X]]]) out.push([`slot-x:${fname}:${fn}`, () => slot(fn === 'static' ? undefined : 'n', [['v', Y]], { attrs: [f(fv)] })])
+  }
   return out
 }
 
